@@ -1,7 +1,9 @@
 //! C08 — compaction never changes the covered set of cells (real `compact`, guard on).
-//! State construction (DESIGN §2.3): the input is a strictly increasing tuple of canonical IDs,
-//! `sort_unstable` ↦ identity (a correct sort for sorted input), the set model is in ASSUME_UNIQUE
-//! mode (correct for pairwise distinct elements), `get_resolution` ↦ its verified loop-free form.
+//! State construction (DESIGN §2.3): the input is a strictly increasing tuple of canonical IDs (one
+//! arrangement per set of distinct cells), std's internal `slice::sort::unstable::sort` — the common
+//! back end of every `sort_unstable*` call — ↦ a bounded insertion sort with the same contract, the
+//! set model is in ASSUME_UNIQUE mode (correct for pairwise distinct elements), `get_resolution` ↦
+//! its verified loop-free form.
 use crate::common::*;
 use a5::core::serialization::*;
 
@@ -21,6 +23,8 @@ pub fn any_sorted_cells<const N: usize>(lo: i32, hi: i32) -> [u64; N] {
         let r = res_stub(input[i]);
         kani::assume(r >= lo && r <= hi);
         if i > 0 {
+            // WLOG: compact sorts its input itself (the bounded sort stub is a real sort), so this
+            // only picks one arrangement per set of distinct cells
             kani::assume(input[i - 1] < input[i]);
         }
         i += 1;
@@ -77,7 +81,7 @@ macro_rules! c08_cover {
         #[kani::proof]
         #[kani::unwind(14)]
         #[kani::stub(alloc::fmt::format, fmt_stub)]
-        #[kani::stub(<[u64]>::sort_unstable, sort_noop)]
+        #[kani::stub(core::slice::sort::unstable::sort, sort_inner_small)]
         #[kani::stub(a5::core::serialization::get_resolution, res_stub)]
         pub fn $name() {
             cover_body::<$n>();
@@ -94,7 +98,7 @@ c08_cover!(c08_cover_5, 5);
 #[kani::proof]
 #[kani::unwind(14)]
 #[kani::stub(alloc::fmt::format, fmt_stub)]
-#[kani::stub(<[u64]>::sort_unstable, sort_noop)]
+        #[kani::stub(core::slice::sort::unstable::sort, sort_inner_small)]
 #[kani::stub(a5::core::serialization::get_resolution, res_stub)]
 pub fn c08_group4_merges() {
     warm();
@@ -152,7 +156,7 @@ fn any_two_cells() -> (u64, u64) {
 #[kani::proof]
 #[kani::unwind(14)]
 #[kani::stub(alloc::fmt::format, fmt_stub)]
-#[kani::stub(<[u64]>::sort_unstable, sort_small)]
+#[kani::stub(core::slice::sort::unstable::sort, sort_inner_small)]
 #[kani::stub(a5::core::serialization::get_resolution, res_stub)]
 pub fn c08_prelude_swap() {
     warm();
@@ -184,7 +188,7 @@ pub fn c08_prelude_swap() {
 #[kani::proof]
 #[kani::unwind(14)]
 #[kani::stub(alloc::fmt::format, fmt_stub)]
-#[kani::stub(<[u64]>::sort_unstable, sort_small)]
+#[kani::stub(core::slice::sort::unstable::sort, sort_inner_small)]
 #[kani::stub(a5::core::serialization::get_resolution, res_stub)]
 pub fn c08_prelude_dup() {
     warm();
@@ -246,7 +250,7 @@ fn unsorted_body<const N: usize>() {
 #[kani::proof]
 #[kani::unwind(14)]
 #[kani::stub(alloc::fmt::format, fmt_stub)]
-#[kani::stub(<[u64]>::sort_unstable, sort_reverse)]
+#[kani::stub(core::slice::sort::unstable::sort, sort_inner_small)]
 #[kani::stub(a5::core::serialization::get_resolution, res_stub)]
 pub fn c08_unsorted_4() {
     unsorted_body::<4>();
